@@ -28,7 +28,8 @@ type mBranch struct {
 type conn struct {
 	X, Y     int
 	From, To string
-	Via      int // number of pass-through nodes crossed
+	Via      int      // number of pass-through nodes crossed
+	Path     []string // the pass-through nodes crossed
 	Class    int
 }
 
@@ -70,47 +71,105 @@ func newModel(p *Program) *model {
 		}
 	}
 	// connections
-	var walk func(node string, st int, x int, from string, via int, depth int)
-	add := func(x, y int, from, to string, via int) {
-		c := conn{X: x, Y: y, From: from, To: to, Via: via, Class: assign(x, y)}
+	var walk func(node string, st int, x int, from string, path []string, depth int)
+	add := func(x, y int, from, to string, path []string) {
+		c := conn{X: x, Y: y, From: from, To: to, Via: len(path), Path: append([]string(nil), path...), Class: assign(x, y)}
 		m.conns = append(m.conns, c)
 		if !isIface(x) && !isIface(y) && x != y {
 			m.concreteMismatch = append(m.concreteMismatch, c)
 		}
 	}
-	walk = func(node string, st int, x int, from string, via int, depth int) {
+	walk = func(node string, st int, x int, from string, path []string, depth int) {
 		if depth > 12 {
 			return
 		}
 		if node == END {
-			add(x, p.GO, from, END, via)
+			add(x, p.GO, from, END, path)
 			return
 		}
 		sts := m.stations[node]
 		if st < len(sts) {
-			add(x, sts[st].In, from, node+"."+sts[st].Kind, via)
+			add(x, sts[st].In, from, node+"."+sts[st].Kind, path)
 			return
 		}
 		if node != START && len(sts) == 0 {
-			via++
+			path = append(append([]string(nil), path...), node)
 		}
 		for _, b := range m.branches[node] {
-			add(x, b.Cond, from, fmt.Sprintf("branch(%s).cond", node), via)
+			add(x, b.Cond, from, fmt.Sprintf("branch(%s).cond", node), path)
 			for _, t := range b.Targets {
-				walk(t, 0, x, from, via, depth+1)
+				walk(t, 0, x, from, path, depth+1)
 			}
 		}
 		for _, s := range m.succ[node] {
-			walk(s, 0, x, from, via, depth+1)
+			walk(s, 0, x, from, path, depth+1)
 		}
 	}
-	walk(START, 0, p.GI, START, 0, 0)
+	walk(START, 0, p.GI, START, nil, 0)
 	for _, n := range p.Nodes {
 		for i, s := range m.stations[n.Name] {
-			walk(n.Name, i+1, s.Out, n.Name+"."+s.Kind, 0, 0)
+			walk(n.Name, i+1, s.Out, n.Name+"."+s.Kind, nil, 0)
 		}
 	}
 	return m
+}
+
+// attached returns the declared types of every typed position directly attached to pass-through node q
+// (outputs of its typed predecessors, inputs of its typed successors, conditions of the branches on it).
+func (m *model) attached(q string) []int {
+	p := m.p
+	pure := func(n string) bool { return n != START && n != END && len(m.stations[n]) == 0 }
+	outT := func(n string) int {
+		if n == START {
+			return p.GI
+		}
+		st := m.stations[n]
+		return st[len(st)-1].Out
+	}
+	inT := func(n string) int {
+		if n == END {
+			return p.GO
+		}
+		return m.stations[n][0].In
+	}
+	var ts []int
+	for _, c := range p.Calls {
+		switch c.Op {
+		case "E":
+			if c.B == q && !pure(c.A) {
+				ts = append(ts, outT(c.A))
+			}
+			if c.A == q && !pure(c.B) {
+				ts = append(ts, inT(c.B))
+			}
+		case "B":
+			if c.A == q {
+				ts = append(ts, c.Cond)
+			}
+			for _, t := range c.Targets {
+				if t == q && !pure(c.A) {
+					ts = append(ts, outT(c.A))
+				}
+				if c.A == q && !pure(t) {
+					ts = append(ts, inT(t))
+				}
+			}
+		}
+	}
+	return ts
+}
+
+// widened: connection c (both ends concrete, unequal) crosses a pass-through that also has an interface-typed
+// neighbour W with X assignable to W and W possibly assignable to Y: typing the pass-through as W hides the mismatch.
+func (m *model) widened(c conn) bool {
+	for _, q := range c.Path {
+		for _, w := range m.attached(q) {
+			if isIface(w) && assign(c.X, w) != never && assign(w, c.Y) != never {
+				return true
+			}
+		}
+	}
+	return false
 }
 
 // ---------------------------------------------------------------------------------------------------
